@@ -1583,9 +1583,11 @@ R"(
                 continue;
             }
 
+            // field accessor reads the field, see `visits_fields`
             res.push_back(
                 fmt::format(
-                    "v.on_field(this->{name}(c), {tag}{{}})",
+                    "(::sbepp::detail::visits_fields<Visitor>::value && "
+                    "v.on_field(this->{name}(c), {tag}{{}}))",
                     fmt::arg("name", f.name),
                     fmt::arg("tag", context.tag)));
         }
